@@ -1,10 +1,188 @@
 package eng
 
-// sched is the two-thread scheduler / lock-set monitor (built later).
-type sched struct{}
+import (
+	"fmt"
+	"sort"
+	"strings"
+)
 
-func (s *sched) access(ip *Interp, p Ptr, write bool)       {}
-func (s *sched) accessMap(ip *Interp, m *Map, write bool)   {}
-func (s *sched) spawn(ip *Interp, fn Value, args []Value)   { ip.unsupported("go statement") }
-func (s *sched) lockOp(ip *Interp, name string, recv Value) {}
-func (s *sched) finish(ip *Interp)                          {}
+// sched is the thread-modular lock-set monitor used for the concurrency property (C06).
+//
+// verifThreads(f1, f2, ...) runs the thread bodies one after the other on the symbolic heap. Every
+// object allocated before the call is "shared"; objects allocated inside a body are private to it
+// (they can only become visible to another thread through a store into shared memory, which is
+// itself recorded). For every access of a body to a shared object the monitor records (thread,
+// read/write, set of locks held with their mode). When the last body has finished, two accesses to
+// the same object from different threads, at least one of them a write, with no common lock (held
+// exclusively by the writer) are reported as a data race. The repository uses no other
+// synchronisation than sync.(RW)Mutex, so the lock-set discipline implies race freedom for every
+// interleaving and any number of goroutines running these bodies.
+type sched struct {
+	shareEpoch int
+	thread     int
+	held       map[*Value]int8 // mutex cell -> 1 shared, 2 exclusive
+	heldKey    string
+	acc        map[interface{}]*objAcc
+	order      []interface{}
+}
+
+type schedAccess struct {
+	thread int
+	write  bool
+	locks  string
+	site   string
+}
+
+type objAcc struct {
+	o     *Obj
+	items []schedAccess
+}
+
+func newSched(ip *Interp) *sched {
+	ip.Epoch++
+	return &sched{shareEpoch: ip.Epoch, held: map[*Value]int8{}, acc: map[interface{}]*objAcc{}}
+}
+
+func (s *sched) begin(ip *Interp, thread int) {
+	s.thread = thread
+	s.held = map[*Value]int8{}
+	s.heldKey = ""
+}
+
+func (s *sched) end(ip *Interp) {
+	if len(s.held) > 0 {
+		ip.W.report(&Finding{Kind: "race", ID: "lock-held-at-thread-end", Site: ip.curFnName(), Msg: "a thread body ended holding " + s.heldKey}, nil)
+	}
+	s.thread = 0
+}
+
+func (s *sched) record(ip *Interp, key interface{}, o *Obj, write bool) {
+	if s.thread == 0 || ip.inInit {
+		return
+	}
+	if o != nil && o.Epoch >= s.shareEpoch {
+		return // allocated by a thread body: private
+	}
+	a := s.acc[key]
+	if a == nil {
+		a = &objAcc{o: o}
+		s.acc[key] = a
+		s.order = append(s.order, key)
+	}
+	for i := range a.items {
+		it := &a.items[i]
+		if it.thread == s.thread && it.write == write && it.locks == s.heldKey {
+			return
+		}
+	}
+	site := ""
+	if write && ip.curFn != nil {
+		site = ip.curFn.String()
+	}
+	a.items = append(a.items, schedAccess{thread: s.thread, write: write, locks: s.heldKey, site: site})
+}
+
+func (s *sched) access(ip *Interp, p Ptr, write bool) {
+	if p.O == nil {
+		return // stack cell of the running frame
+	}
+	s.record(ip, p.O, p.O, write)
+}
+
+func (s *sched) accessObj(ip *Interp, o *Obj, write bool) {
+	if o == nil {
+		return
+	}
+	s.record(ip, o, o, write)
+}
+
+func (s *sched) accessMap(ip *Interp, m *Map, write bool) {
+	if m == nil {
+		return
+	}
+	s.record(ip, m, m.O, write)
+}
+
+func (s *sched) spawn(ip *Interp, fn Value, args []Value) { ip.unsupported("go statement") }
+
+func (s *sched) lockOp(ip *Interp, name string, recv Value) {
+	p, ok := recv.(Ptr)
+	if !ok || p.C == nil {
+		return
+	}
+	switch {
+	case strings.HasSuffix(name, ").Lock"):
+		s.held[p.C] = 2
+	case strings.HasSuffix(name, ").RLock"):
+		if s.held[p.C] == 0 {
+			s.held[p.C] = 1
+		}
+	case strings.HasSuffix(name, ").Unlock"), strings.HasSuffix(name, ").RUnlock"):
+		delete(s.held, p.C)
+	}
+	var ks []string
+	for c, m := range s.held {
+		ks = append(ks, fmt.Sprintf("%p:%d", c, m))
+	}
+	sort.Strings(ks)
+	s.heldKey = strings.Join(ks, ",")
+}
+
+func lockModes(k string) map[string]byte {
+	out := map[string]byte{}
+	if k == "" {
+		return out
+	}
+	for _, e := range strings.Split(k, ",") {
+		i := strings.LastIndexByte(e, ':')
+		out[e[:i]] = e[i+1]
+	}
+	return out
+}
+
+// ordered reports whether accesses a (a write) and b are ordered by a common lock.
+func ordered(a, b schedAccess) bool {
+	la, lb := lockModes(a.locks), lockModes(b.locks)
+	for l, ma := range la {
+		mb, ok := lb[l]
+		if !ok {
+			continue
+		}
+		if ma == '2' && (!b.write || mb == '2') {
+			return true
+		}
+	}
+	return false
+}
+
+// finish checks the recorded accesses pairwise.
+func (s *sched) finish(ip *Interp) {
+	for _, key := range s.order {
+		a := s.acc[key]
+		for i := range a.items {
+			x := a.items[i]
+			if !x.write {
+				continue
+			}
+			for j := range a.items {
+				y := a.items[j]
+				if y.thread == x.thread || (y.write && j < i) {
+					continue
+				}
+				if !ordered(x, y) {
+					osite := "global"
+					if a.o != nil {
+						osite = a.o.Site
+					}
+					kind := "read"
+					if y.write {
+						kind = "write"
+					}
+					ip.W.report(&Finding{Kind: "race", ID: "race", Site: x.site,
+						Msg: fmt.Sprintf("thread %d writes shared object (%s) in %s [locks %q] while thread %d may %s it [locks %q]", x.thread, osite, x.site, x.locks, y.thread, kind, y.locks)}, nil)
+					break
+				}
+			}
+		}
+	}
+}
